@@ -3175,7 +3175,30 @@ class StridedInterval:
                 ret = StridedInterval(bits=self.bits, stride=new_stride, lower_bound=lower, upper_bound=upper)
 
         ret.normalize()
+        # Widening has to give an upper bound of both operands.  The extrapolation above does not always (the two
+        # bounds are extrapolated on different number lines and may overtake each other on the circle; the stride does
+        # not look at the phase of b): where it does not, the answer is the only one that is always right.
+        if not (ret._contains(self) and ret._contains(b)):
+            ret = StridedInterval.top(bits=self.bits)
         return ret
+
+    def _contains(self, x: StridedInterval) -> bool:
+        """
+        Is every member of `x` a member of this interval?
+        """
+        if x.is_empty:
+            return True
+        if self.is_empty or self.bits != x.bits:
+            return False
+        modulus = 1 << self.bits
+        span = (self.upper_bound - self.lower_bound) % modulus
+        offset = (x.lower_bound - self.lower_bound) % modulus
+        x_span = (x.upper_bound - x.lower_bound) % modulus
+        if offset + x_span > span:
+            return False
+        if self.stride == 0:
+            return x_span == 0
+        return offset % self.stride == 0 and (x_span == 0 or x.stride % self.stride == 0)
 
     def reverse(self):
         """
